@@ -277,7 +277,7 @@ func VH_C08_SiblingIsolation() {
 		return
 	}
 	target := vhChoose("target", nchild)
-	op := vhChoose("op", 3)
+	op := vhChoose("op", 4)
 	newv := vhRange("newval", 0, 300)
 	for _, r := range []*run{warm, cold} {
 		v, ok := child(r, target)
@@ -296,6 +296,8 @@ func VH_C08_SiblingIsolation() {
 				vhAssert(err == nil, "child set")
 			case 2:
 				vhAssert(x.Append(vU64(newv)) == nil, "child append")
+			case 3:
+				vhAssert(x.PopIterate(func(Storable) {}) == nil, "child bulk pop")
 			}
 		case *OrderedMap:
 			switch op {
@@ -308,6 +310,8 @@ func VH_C08_SiblingIsolation() {
 			case 2:
 				_, err := x.Set(vhCompareBK, vhHipB, vBKey{val: 999}, vU64(newv))
 				vhAssert(err == nil, "child add field")
+			case 3:
+				vhAssert(x.PopIterate(func(Storable, Storable) {}) == nil, "child bulk pop")
 			}
 		}
 	}
